@@ -86,9 +86,10 @@ def c07_operative(rebind: int, nma2: int, p1: int, s1: bool, ma1: int, mb1: int,
   vk = rt.pick(vk, NVK) if broot else 0
   # between two calls of the same probe the root binding is replaced by a DIFFERENT value that
   # compares equal to the old one (1 / True, two macros, the same configurable under two scopes)
-  rebind = rt.pick(rebind, 5)
-  if rebind and not (second == 1 and broot and vk == 0 and not bscope):
-    rt.discard()
+  if second == 1 and broot and vk == 0 and not bscope:
+    rebind = rt.pick(rebind, 5)       # chosen only where it applies
+  else:
+    rebind = 0
   with rt.native():
     world.fresh()
     probe1 = PROBES[p1]
@@ -225,10 +226,10 @@ HARNESSES = {
         smoke=[dict(rebind=0, nma2=5, p1=0, s1=True, ma1=0, mb1=1, second=1, s2=False, ma2=2, mb2=0, broot=True, vk=3, bscope=True),
                dict(rebind=0, nma2=5, p1=1, s1=False, ma1=1, mb1=0, second=2, s2=True, ma2=0, mb2=0, broot=True, vk=4, bscope=False),
                dict(rebind=0, nma2=5, p1=4, s1=True, ma1=0, mb1=0, second=0, s2=False, ma2=0, mb2=0, broot=True, vk=6, bscope=True)],
-        tiers={'quick': dict(split=dict(p1=list(range(5)), second=[0, 1, 2], ma1=list(range(5)), rebind=[0, 1, 2, 3, 4]),
+        tiers={'quick': dict(split=dict(p1=list(range(5)), second=[0, 1, 2], ma1=list(range(5))),
                              fixed=dict(mb2=0, nma2=3), budget_s=100),
                'thorough': dict(split=dict(p1=list(range(5)), second=[0, 1, 2], vk=list(range(NVK)),
-                                           ma1=list(range(5)), rebind=[0, 1, 2, 3, 4]), fixed=dict(nma2=5), budget_s=600)},
+                                           ma1=list(range(5))), fixed=dict(nma2=5), budget_s=600)},
         bounds='1-2 calls over 5 probes (plain, allow-listed, deny-listed, reference consumer, registered method), each '
                'in scope none/s with the first parameter omitted / positional / keyword / gin.REQUIRED positionally / '
                'gin.REQUIRED by keyword and the second omitted/keyword; the '
